@@ -33,11 +33,11 @@ CHECKS = {
             'Trusted: the hand composition in pbt/props/c10.py; library primitives are checked by C03-C08, C12.',
             'DESIGN.md section 4, C10'),
     'C11': ('fault_enumeration',
-            'enumeration of documented row-fault kinds over tables of 1-2 rows (samples: 22 kinds incl. 6 healthy ones, '
-            'beads: 6 kinds) + Hypothesis for 3-5 rows; oracle: row-level error for each faulty row, healthy row == its '
+            'enumeration of documented row-fault kinds over tables of 1-2 rows (samples: 25 kinds incl. 7 healthy ones, '
+            'beads: 9 kinds) + Hypothesis for 3-5 rows; oracle: row-level error for each faulty row, healthy row == its '
             'single-row run (sample and output-table row), order, exact error notes, histogram skips',
             'Every 1-row table, every ordered pair of kinds that contains a healthy row or repeats a kind, and a third '
-            '(quick) or all (thorough) of the ordered pairs of two different faulty kinds, all 43 bead tables of <=2 '
+            '(quick) or all (thorough) of the ordered pairs of two different faulty kinds, all 91 bead tables of <=2 '
             'rows, plus sampled tables of 3..5 rows, must return (no abort), record an ExcelUIException for exactly the '
             'faulty rows, give every healthy cell-sample row the public fingerprint and the output-table row of its '
             "single-row run, keep table order, write 'ERROR: <its own message>' with empty statistics for faulty rows "
